@@ -1183,6 +1183,10 @@ class MoneyConverter:
             else:
                 return rate.inverted()
         else:
+            if effective_date is None:
+                # both rates must be effective at the same date, so the
+                # default must be determined only once
+                effective_date = self._get_dflt_effective_date()
             try:
                 unit_rate = self._get_rate(unit_currency, effective_date)
                 term_rate = self._get_rate(term_currency, effective_date)
